@@ -213,7 +213,10 @@ def write_evidence(prop, spec, tier, seed, results, wall, nviol, rc, merge=False
         for k, v in oc.get('assertions_evaluated', {}).items(): asserts[k] = max(asserts.get(k, 0), v)
         for k, v in oc.get('witnesses_reached', {}).items():
             if k.split(':')[0] not in new_names: reached[k] = v
-        rc = max(rc, int(oc.get('exit_code', 0) or 0)); nviol = nviol + int(old.get('violations', 0) or 0); wall = wall + float(old.get('wall_s', 0) or 0)
+        # the verdict of the merged file is recomputed from its entries (a stored entry that was not ok stays not ok until its job is run again)
+        nviol = sum(1 for j in jobs for v in j.get('violations', []) if v.get('reproduced'))
+        rc = 1 if nviol else 3 if any(j.get('status') == 'internal' for j in jobs) else 2 if any(j.get('status') == 'inconclusive' for j in jobs) else 0
+        wall = wall + float(old.get('wall_s', 0) or 0)
         merged_note = 'job entries were produced by separate runs of this check (see run_at per job; entries without run_at are from the last full run); wall_s is the sum over those runs'
     ev = dict(property_id=prop, tier=tier, seed=seed, level='model_checking',
               coverage=dict(states=max(states, 0), transitions=max(trans, 0), traces_validated_against_impl=val, samples=samples[:12] or [dict(note='no path completed')],
